@@ -279,7 +279,8 @@ def circular_cases(run, graphs):
         so = sub_oracle(g)
         hier = {HIER} | {b for (a, b) in so if a == HIER}
         for U in (1, 2):
-            touch = [r for r in g["inst_refs"] if g["ns"][r[0]] == U or g["ns"][r[1]] == U]
+            # every reference of the graph counts — also the HasSubtype references between reference types of that namespace
+            touch = [r for r in g["type_refs"] + g["inst_refs"] if g["ns"][r[0]] == U or g["ns"][r[1]] == U]
             E = [[r[0], r[1]] for r in touch if r[2] in hier]
             plan.append((g, U, E)); ops.append({"op": "circular", "edges": E})
     outs = run.driver.batch(ops)
